@@ -123,7 +123,9 @@ func toFlags(opts conv.Options) (flags uint64) {
 	if opts.WriteOptionalField {
 		flags |= types.F_WRITE_OPTIONAL
 	}
-	if opts.ReadHttpValueFallback {
+	// F_TRACE_BACK makes the native converter hand unset required/root-level fields back to Go (field cache), where
+	// ReadHttpValueFallback and TracebackRequredOrRootFields are evaluated; the hand-back only happens with http mapping on
+	if opts.ReadHttpValueFallback || (opts.EnableHttpMapping && opts.TracebackRequredOrRootFields) {
 		flags |= types.F_TRACE_BACK
 	}
 	return
